@@ -475,3 +475,46 @@ func HarnessC16Budget() {
 		}
 	}
 }
+
+// HarnessC14TCP: a handshake that fails on a real TCP transport (oversized or undecodable first
+// envelope, a peer that vanishes) leaves the socket closed.
+func HarnessC14TCP() {
+	in := vStreamNew("in")
+	conn := &vhFrameConn{in: in, maxTimeouts: 1, maxFrag: 1}
+	limit := 1024
+	t := vhNewTCP(conn, int64(limit))
+	t.server = true
+	switch vhChoice("fault", 4) {
+	case 0: // an envelope far larger than the read limit
+		b, _ := json.Marshal(&Session{State: SessionStateNew})
+		vStreamPut(in, b, 4096)
+	case 1: // undecodable bytes
+		vStreamPutGarbage(in, 16)
+	case 2: // the peer connects and goes away at once
+		vStreamClose(in)
+	default: // a valid envelope that is not a session, then silence until the peer leaves
+		b, _ := json.Marshal(vhWireEnvelope(0, "m"))
+		vStreamPut(in, b, 256)
+		vStreamClose(in)
+	}
+	established, finished := 0, 0
+	cfg := &ServerConfig{Node: Node{Identity{"postmaster", "srv"}, "s1"}, CompOpts: []SessionCompression{SessionCompressionNone},
+		EncryptOpts: []SessionEncryption{SessionEncryptionNone}, SchemeOpts: []AuthenticationScheme{AuthenticationSchemeGuest}, ChannelBufferSize: 1,
+		Authenticate: func(ctx context.Context, id Identity, a Authentication) (*AuthenticationResult, error) {
+			return MemberAuthenticationResult(), nil
+		},
+		Register:    func(ctx context.Context, n Node, c *ServerChannel) (Node, error) { return n, nil },
+		Established: func(id string, c *ServerChannel) { established++ },
+		Finished:    func(id string) { finished++ },
+	}
+	srv := &Server{config: cfg, mux: &EnvelopeMux{}}
+	sc := NewServerChannel(t, 1, cfg.Node, vhSID)
+	ctx, cancel := context.WithTimeout(context.Background(), 300*time.Millisecond)
+	defer cancel()
+	srv.handleChannel(ctx, sc)
+	vQuiesce()
+	vReach("c14:tcp-serve-returned")
+	vAssert(conn.closed, "c14:tcp-socket-closed-after-failed-handshake")
+	vAssert(established == 0 && finished == 0, "c14:tcp-no-callbacks-for-failed-handshake")
+	vAssert(vThreadsLive() <= 0, "c14:tcp-no-goroutine-left")
+}
